@@ -735,6 +735,32 @@ func checkEscape(r *Report, p *Prog, rule string, sel func(*ssa.Function) bool) 
 							esc = shortFn(info.escaper)
 						}
 						r.Check(info.escaped, rule, fmt.Sprintf("%s: '>' escaped in attribute values", p.FnName(info.fn)), p.Pos(info.fn.Pos()), "result passed through "+esc, "the serialised bytes are returned without the attribute '>' escaper: a \"]]>\" in an attribute value (attribute names, formats, session index) is written raw and encoding/xml refuses the document")
+						if info.escaper != nil {
+							// the escaper grows its input ("&gt;" for ">"), so it must build its result in a buffer of its own: appending
+							// into a slice of the input overwrites bytes that have not been read yet
+							r.Fn(p.FnName(info.escaper))
+							alias := ""
+							for _, eb := range info.escaper.Blocks {
+								for _, ein := range eb.Instrs {
+									ec, ok := ein.(*ssa.Call)
+									if !ok {
+										continue
+									}
+									if bi, ok := ec.Call.Value.(*ssa.Builtin); !ok || bi.Name() != "append" {
+										continue
+									}
+									for _, lf := range rootLeaves(ec.Call.Args[0], map[ssa.Value]bool{}) {
+										if sl, ok := lf.(*ssa.Slice); ok && sl.X == ssa.Value(info.escaper.Params[0]) {
+											alias = p.InstrPos(sl)
+										}
+										if lf == ssa.Value(info.escaper.Params[0]) {
+											alias = p.InstrPos(ein)
+										}
+									}
+								}
+							}
+							r.Check(alias == "", rule, fmt.Sprintf("%s: the escaped copy is built in its own buffer", p.FnName(info.escaper)), p.Pos(info.escaper.Pos()), "no append into a slice of the input", "the output is appended into a slice of the input buffer ("+alias+"): the first expansion makes the writer overtake the reader and the rest of the document is corrupted")
+						}
 					}
 					continue
 				}
